@@ -20,8 +20,18 @@ CHECKS = {
          "Second-pass equality checked on every evaluation; the unchanged tree is not idempotent at many narrow/critical widths (known findings keyed by statement hash), so the seeded part is restricted to the region where idempotence holds today (ordinary code, width >= 120) and the pinned part carries the regression power."),
  "C07": ("exploration", "7 C07", "catch_unwind + subprocess abort attribution + logical step (tick) budget + parser agreement over valid, extreme and destroyed inputs",
          "Panics, aborts, step-budget overruns and accept/reject disagreement with the checker's parser are observed per evaluation; wall-clock is never a verdict."),
+ "C08": ("exploration", "7 C08", "own model of the ignore directives (per block state) over statement inventories; ordered verbatim-slice search + differential run with defused directives",
+         "Every model-ignored statement of pinned templates (14 statement kinds x directive forms x tails x neighbours x depth), of the repository's ignore inputs and of generated programs with inserted directives must reappear byte for byte, and unrelated statements must be formatted as without the directives."),
+ "C09": ("exploration", "7 C09", "segment/region matching of range output against input (outside the range) and against the whole-file output (inside), by pre-order statement inventory",
+         "For statement-aligned, mid-token, nested, open-ended, empty and out-of-bounds ranges on the corpus, on templates (every statement pair) and on generated programs: text outside the affected statements is compared byte for byte, affected regions are compared with the whole-file run."),
  "C10": ("exploration", "7 C10", "byte-level line-ending / indentation / end-of-file monitor on outputs, masked by own-lexer string spans",
          "Every output byte outside string contents is checked against the configured line ending and indent settings for LF/CRLF/mixed inputs."),
+}
+CLI = {
+ "C13": ("exploration", "7 C13", "external observation of the real binary on generated trees: strace event log (no write-intent syscall in the tree), before/after snapshots (bytes, mtime, inode, mode), exit-status and diff-set model",
+         "Each execution of `stylua --check` on pinned class combinations (9 outcome classes x 4 output formats x argv orders) and seeded random trees is judged by a syscall log, a full snapshot comparison, a three-valued exit-status model built from the library reference and the set of files for which a diff was printed."),
+ "C14": ("fault_enumeration", "7 C14", "fault enumeration over file outcome classes (unparseable, invalid UTF-8, verify-fail, injected crash, strace-injected EACCES on read and on write) in every order; snapshots + strace write-set + library reference",
+         "Every sequence of outcome classes up to length 2 (3-4 thorough) on argv and inside directories is executed in write mode; failing files must keep their bytes, all others must equal the library output, already formatted files must not be opened for writing, exit status 2 iff a failure."),
 }
 NOT_YET = {}
 checks = []
@@ -37,6 +47,20 @@ for pid, (cat, ref, tech, text) in sorted(CHECKS.items()):
         "level_note": "Trusted base: full_moon 1.2.0 as syntax oracle (guarded by the checker's own lexer), the harness's generators and oracles (validated by self-test mutants, DESIGN §10), rustc. Held = held on the executions of this run only.",
         "technique": tech,
     })
+for pid, (cat, ref, tech, text) in sorted(CLI.items()):
+    checks.append({
+        "property_id": pid,
+        "quick_cmd": f"./check {pid} quick",
+        "thorough_cmd": f"./check {pid} thorough",
+        "evidence_file": f"/verif/evidence/{pid}.json",
+        "replay_cmd_template": "./check replay {path}",
+        "engine": "cli-monitors",
+        "level_claimed": {"category": cat, "text": text, "design_ref": f"DESIGN.md §{ref}"},
+        "level_note": "Trusted base: strace's syscall log, the file system, the library reference `sv libfmt` (stylua_lib built from the same tree, Config constructed from Rust enum variants), the Python models written from the documentation. Held = held on the executions of this run only.",
+        "technique": tech,
+    })
+CHECKS.update(CLI)
+checks.sort(key=lambda c: c["property_id"])
 props = [json.loads(l)["id"] for l in open(os.path.join(root, "properties.jsonl"))]
 na = [{"property_id": p, "reason": NOT_YET.get(p, "check under construction in this session; not claimed until its monitor has been validated on the unchanged tree")} for p in props if p not in CHECKS]
 m = {
@@ -50,7 +74,8 @@ m = {
    "add_only": True,
  },
  "engines": [
-   {"name": "sv", "path": "/verif/harness", "serves_properties": sorted(CHECKS), "kind_free_text": "Rust harness linked against stylua_lib built from /repo's working tree with the verif hooks: workload generators, own lexer / normal form / census oracles, per-property runtime monitors, 16 worker subprocesses"},
+   {"name": "cli-monitors", "path": "/verif/cli", "serves_properties": sorted(CLI), "kind_free_text": "Python 3 (stdlib) monitors observing the hooked stylua binary from outside: scratch trees in /dev/shm, strace event logs and fault injection, snapshots, documentation-derived models, schedule controller driver"},
+   {"name": "sv", "path": "/verif/harness", "serves_properties": sorted(k for k in CHECKS if k not in CLI), "kind_free_text": "Rust harness linked against stylua_lib built from /repo's working tree with the verif hooks: workload generators, own lexer / normal form / census oracles, per-property runtime monitors, 16 worker subprocesses"},
  ],
  "checks": checks,
  "not_applicable": na,
